@@ -286,8 +286,16 @@ func genProgram(rng *rand.Rand) program {
 			}
 		}
 	}
+	bigUsed := false // at most one day-scale step: TLC integers are 32 bit (2^31 ticks = 59 h)
 	for i := 0; i < rng.Intn(4); i++ {
-		p.Advances = append(p.Advances, []int{1, 4, 5, 6, 10, 30, 24 * 36_000_000}[rng.Intn(7)])
+		a := []int{1, 4, 5, 6, 10, 30, 24 * 36_000_000}[rng.Intn(7)]
+		if a > 1000 {
+			if bigUsed {
+				a = 30
+			}
+			bigUsed = true
+		}
+		p.Advances = append(p.Advances, a)
 	}
 	if p.Advances == nil {
 		p.Advances = []int{}
